@@ -240,6 +240,10 @@ def script_for(shape: dict) -> Tuple[str, str]:
         lines.append(f"{RECV[cls]}.{meth}({shape['args']})")
     rt_names = sorted({v for v in shape["binding"].values() if _is_rt(v)})
     pre = [f'{n} = analog_read("A0")' for n in rt_names] + list(shape.get("pre_lines", []))
+    if shape.get("block_lines") is not None:
+        # the call is the last statement of a block (parsed in one go with the statements before it)
+        body = list(shape["block_lines"]) + [lines[-1]]
+        return IMPORTS + "\n".join(pre + lines[:-1] + ["while True:"] + ["    " + ln for ln in body]) + "\n", lines[-1]
     return IMPORTS + "\n".join(pre + lines + list(shape.get("post_lines", []))) + "\n", lines[-1]
 
 
@@ -302,6 +306,15 @@ def evaluate(shape: dict) -> dict:
         if target is None:
             ir_error = f"no {node_cls} node produced for `{line}` (the call vanished)"
         else:
+            for param in shape.get("none_defaults", []):
+                field = renames.get(param, param)
+                if hasattr(target, field) and getattr(target, field) not in (None, "None"):
+                    ir_error = f"`{line}`: omitted parameter {param} (default None) holds {getattr(target, field)!r} in IR field {node_cls}.{field} (left over from an earlier statement?)"
+            if shape.get("same_call_params"):
+                texts = [str(getattr(target, renames.get(prm, prm))) for prm in shape["same_call_params"] if hasattr(target, renames.get(prm, prm))]
+                temps = [t for t in texts if t.startswith("__redu_arg_")]
+                if len(set(temps)) != len(temps):
+                    ir_error = f"`{line}`: {len(temps)} parameters were each given their own call of the sensor, the IR binds them to {texts} (one evaluation shared)"
             for param, default in shape.get("defaults", {}).items():
                 field = renames.get(param, param)
                 if not hasattr(target, field) or ir_error:
@@ -345,6 +358,15 @@ def evaluate(shape: dict) -> dict:
                 if got != want:
                     ir_error = f"`{line}`: parameter {param} should bind {want!r}, IR field {node_cls}.{field} holds {got!r}"
                     break
+        if not ir_error and shape["cls"] == "LCD" and shape["meth"] == "__init__" and "rw" in shape["binding"] and not shape.get("odd_param") and all(_is_number(shape["binding"].get(k)) for k in ("rs", "rw", "en", "d4", "d5", "d6", "d7")):
+            import re as _re
+
+            b = shape["binding"]
+            m = _re.search(r"LiquidCrystal\s+\w+\(([^)]*)\)", text)
+            want_ctor = [b[k] for k in ("rs", "rw", "en", "d4", "d5", "d6", "d7")]
+            got_ctor = [a.strip() for a in m.group(1).split(",")] if m else None
+            if got_ctor != want_ctor:
+                ir_error = f"`{line}`: the LiquidCrystal constructor takes (rs, rw, enable, d4..d7) = {want_ctor}, the firmware passes {got_ctor}"
     else:
         # Core helpers are expressions: check the Arduino call text
         b = dict(shape["binding"])
@@ -395,6 +417,22 @@ def special_shapes(cls: str, meth: str) -> Iterator[dict]:
                     cur = dict(sh, args=args, binding=dict(sh["binding"], **{param: lit}), group=sh["group"] + f":spaced:{param}:{lit}", after=list(earlier))
                     yield cur
                     earlier = (earlier + [dict(cur, after=[])])[-3:]
+        # the same call statement as the last one of a block whose earlier statements used every parameter
+        if meth not in ("", "__init__"):
+            minimal = min(base, key=lambda x: (len(x["binding"]), x["n_pos"]))
+            fn, _ = _callable(cls, meth)
+            none_defaults = [p.name for p in inspect.signature(fn).parameters.values() if p.default is None and p.name not in minimal["binding"] and p.name not in IGNORED]
+            recv = RECV[cls]
+            earlier = [f"{recv}.{meth}({full['args']})"] + [f"{RECV[c2]}.{m2}({max(list(shapes(c2, m2)), key=lambda x: len(x['binding']))['args']})" for c2, m2 in (("Led", "blink"), ("Buzzer", "play_tone")) if (c2, m2) != (cls, meth)]
+            decls_needed = [DECLS[c2] for c2 in ("Led", "Buzzer") if c2 != cls]
+            yield dict(minimal, block_lines=earlier, pre_lines=decls_needed, none_defaults=none_defaults, group=minimal["group"] + ":in-block")
+        numeric = [p for p, v in full["binding"].items() if _is_number(v)]
+        if len(numeric) >= 2 and meth != "" and not (cls == "LCD" and meth == "__init__"):
+            args = full["args"]
+            for prm in numeric:
+                args = args.replace(f"{prm}={full['binding'][prm]}", f"{prm}=pot8.read()")
+            yield dict(full, args=args, binding={k: v for k, v in full["binding"].items() if k not in numeric}, same_call_params=numeric, pre_lines=['pot8 = Potentiometer("A3")'], group=full["group"] + ":same-call")
+        for param, val in []:
             if val.startswith("["):
                 for post in (["seqv.append(1)"], ["seqv.remove(1)"], ["seqv.append(0)", "seqv.append(1)"]):
                     args = sh["args"].replace(val, "seqv", 1)
